@@ -187,7 +187,7 @@ def check_store(case, rec):
                     d, m = np.ma.getdata(cr.results), np.ma.getmaskarray(cr.results)
                     vecs.append([None if mm else int(v) for v, mm in zip(d.tolist(), m.tolist())])
                 want = model.model_compare(vecs) if vecs else []
-                got = [int(v) for v in df[sname].tolist()] if n else []
+                got = [None if (v is None or v != v) else int(v) for v in df[sname].tolist()] if n else []
                 if got != want:
                     rec.fail(site, "roll-up column differs from the pointwise aggregate of all results", expected=want, got=got, **info)
     # data / axis columns
